@@ -136,6 +136,12 @@ var vC04Decls = []string{
 	// eval-style builtins and nested evaluations
 	`(eval (quote (+ 1 9001))) (eval (quote (def z 9001))) z`,
 	`(apply + [1 9001]) (map (fn [x] (+ x 1)) [1 9001])`,
+	// code handed to an eval-style builtin that pushes more than one operand (a quote of two things, a begin of several)
+	`(eval (quote (quote 10 9001)))`,
+	`(def arr3 [5 6 9001]) (aget arr3 (quote (quote 0 2)))`,
+	`(eval (quote (begin 1 2 9001))) (eval (quote (quote 1 2 3 9001)))`,
+	`(defn ev [x] (eval x)) (ev (quote (quote 7 9001))) (ev (quote (quote 7 8 9001)))`,
+	`(def hk (hash a: 9001)) (hget hk (quote (quote b a)))`,
 	`(expectError "Error calling 'first': first called on empty array" (first [])) 9001`,
 	// closures stored in data, called after the creator returned
 	`(defn mk [n] (fn [] (set n (+ n 1)) n)) (def c (mk 9001)) (c) (c)`,
